@@ -60,6 +60,7 @@ var Shard, Shards = 0, 1
 var generators = map[string]func(rec *lib.Rec, r *lib.Rng, thorough bool){
 	"C13": genC13,
 	"C10": genC10,
+	"C06": genC06,
 	"C11": genC11,
 	"C12": genC12,
 	"C04": func(rec *lib.Rec, r *lib.Rng, th bool) { genBuild(rec, r, th, "C04") },
